@@ -15,13 +15,11 @@ symbolic reasoning about the spaces in which finite elements lie.
 # Modified by Lizao Li 2015
 # Modified by Thomas Gibson 2017
 
-from functools import total_ordering
 from math import inf, isinf
 
 __all_classes__ = ["SobolevSpace", "DirectionalSobolevSpace"]
 
 
-@total_ordering
 class SobolevSpace:
     """Symbolic representation of a Sobolev space.
 
@@ -85,14 +83,27 @@ class SobolevSpace:
                 "Unable to test for inclusion of a SobolevSpace in another SobolevSpace. "
                 "Did you mean to use <= instead?"
             )
-        return other.sobolev_space == self or self in other.sobolev_space.parents
+        return other.sobolev_space <= self
 
     def __lt__(self, other):
         """In common with intrinsic Python sets, < indicates "is a proper subset of"."""
+        if isinstance(other, DirectionalSobolevSpace):
+            return other.__gt__(self)
         return other in self.parents
 
+    def __gt__(self, other):
+        """In common with intrinsic Python sets, > indicates "is a proper superset of"."""
+        return other < self
 
-@total_ordering
+    def __le__(self, other):
+        """In common with intrinsic Python sets, <= indicates "is a subset of"."""
+        return self < other or self == other
+
+    def __ge__(self, other):
+        """In common with intrinsic Python sets, >= indicates "is a superset of"."""
+        return other < self or self == other
+
+
 class DirectionalSobolevSpace(SobolevSpace):
     """Directional Sobolev space.
 
@@ -135,9 +146,7 @@ class DirectionalSobolevSpace(SobolevSpace):
                 "Unable to test for inclusion of a SobolevSpace in another SobolevSpace. "
                 "Did you mean to use <= instead?"
             )
-        return other.sobolev_space == self or all(
-            self[i] in other.sobolev_space.parents for i in self._spatial_indices
-        )
+        return other.sobolev_space <= self
 
     def __eq__(self, other):
         """Check equality."""
@@ -150,15 +159,22 @@ class DirectionalSobolevSpace(SobolevSpace):
         if isinstance(other, DirectionalSobolevSpace):
             if self._spatial_indices != other._spatial_indices:
                 return False
-            return any(self._orders[i] > other._orders[i] for i in self._spatial_indices)
+            return self._orders != other._orders and all(
+                self._orders[i] >= other._orders[i] for i in self._spatial_indices
+            )
 
-        if other in [HDiv, HCurl]:
-            return all(self._orders[i] >= 1 for i in self._spatial_indices)
-        elif other.name in ["HDivDiv", "HEin", "HCurlDiv"]:
+        if other.name in ["HDivDiv", "HEin", "HCurlDiv"]:
             # Don't know how these spaces compare
-            return NotImplementedError(f"Don't know how to compare with {other.name}")
-        else:
-            return any(self._orders[i] > other._order for i in self._spatial_indices)
+            raise NotImplementedError(f"Don't know how to compare with {other.name}")
+        # Contained in other iff the space of the least smooth direction is
+        return self != other and all(self[i] <= other for i in self._spatial_indices)
+
+    def __gt__(self, other):
+        """In common with intrinsic Python sets, > indicates "is a proper superset of."""
+        if isinstance(other, DirectionalSobolevSpace):
+            return other < self
+        # Contains other iff other is smooth enough in every direction
+        return self != other and all(other <= self[i] for i in self._spatial_indices)
 
     def __str__(self):
         """Format as a string."""
